@@ -8,7 +8,7 @@ from . import sut
 # ------------------------------------------------------------------ value lists for partitioning
 
 PROFILES = ["tiny", "small", "medium", "large", "huge", "all-equal", "two-valued", "one-dominant", "planted",
-            "arithmetic"]
+            "arithmetic", "mirrored"]
 
 
 MASK64 = (1 << 64) - 1
@@ -104,6 +104,13 @@ def values_lists(draw, min_len=1, max_len=10, numbins=None, profiles=None, max_v
         big = draw(int_lists(nbig, 6, 40))
         small = draw(st.lists(st.integers(1, 3), min_size=max(0, n - nbig), max_size=max(0, n - nbig)))
         vals = draw(st.permutations(big + small))
+    elif profile == "mirrored":
+        # every value twice (or four times): the two halves of the natural top-level split are value-identical, so sub-problems repeat
+        reps = 2 if n < 8 or draw(st.booleans()) else 4
+        base = draw(st.lists(st.integers(0, draw(st.sampled_from([4, 9, 30]))), min_size=max(1, n // reps), max_size=max(1, n // reps)))
+        vals = []
+        for _ in range(reps):
+            vals += list(draw(st.permutations(base)))
     elif profile == "planted":
         k = numbins if (numbins and numbins >= 2) else draw(st.integers(2, 4))
         vals = draw(planted_values(k, max(max_len, k)))
